@@ -21,10 +21,12 @@ import (
 	"sort"
 	"strconv"
 	"strings"
+	"time"
 	"unicode/utf8"
 
 	"github.com/cloudwego/eino/compose"
 
+	"verif/harness/cmd/c12/alt"
 	"verif/harness/lib"
 )
 
@@ -67,6 +69,40 @@ type NU64 uint64
 type UInt int
 type UStr string
 
+// named types with a JSON form of their own: NLvl marshals itself as the string "L<n>"
+// (json.Marshaler / json.Unmarshaler), NTk as the text "T<n>" (encoding.TextMarshaler /
+// TextUnmarshaler: also used for map keys of this type)
+type NLvl int
+
+func (l NLvl) MarshalJSON() ([]byte, error) { return []byte(`"L` + strconv.Itoa(int(l)) + `"`), nil }
+func (l *NLvl) UnmarshalJSON(b []byte) error {
+	s := string(b)
+	if len(s) < 4 || !strings.HasPrefix(s, `"L`) || !strings.HasSuffix(s, `"`) {
+		return fmt.Errorf("NLvl: bad JSON %s", s)
+	}
+	n, err := strconv.Atoi(s[2 : len(s)-1])
+	*l = NLvl(n)
+	return err
+}
+
+type NTk int
+
+func (t NTk) MarshalText() ([]byte, error) { return []byte("T" + strconv.Itoa(int(t))), nil }
+func (t *NTk) UnmarshalText(b []byte) error {
+	if len(b) < 2 || b[0] != 'T' {
+		return fmt.Errorf("NTk: bad text %q", b)
+	}
+	n, err := strconv.Atoi(string(b[1:]))
+	*t = NTk(n)
+	return err
+}
+
+// time.Time: a struct type with unexported fields only and a JSON form of its own.  For the
+// model it is a named type whose literal is the RFC 3339 text (id timeNamed, basic kind string).
+var timeType = reflect.TypeOf(time.Time{})
+
+const timeNamed = 13
+
 type namedInfo struct {
 	base string
 	rt   reflect.Type
@@ -79,7 +115,12 @@ var named = []namedInfo{
 	{"bool", reflect.TypeOf(NBool(false)), true}, {"int64", reflect.TypeOf(NI64(0)), true},
 	{"float32", reflect.TypeOf(NF32(0)), true}, {"uint64", reflect.TypeOf(NU64(0)), true},
 	{"int", reflect.TypeOf(UInt(0)), false}, {"string", reflect.TypeOf(UStr("")), false},
+	{"int", reflect.TypeOf(NLvl(0)), true}, {"int", reflect.TypeOf(NTk(0)), true},
+	{"int", reflect.TypeOf(alt.NInt(0)), true}, {"string", timeType, true},
 }
+
+// the registered named types the generator picks from
+var regNamed = []int{0, 1, 2, 3, 4, 5, 6, 7, 0, 1, 2, 3, 4, 5, 6, 7, 10, 11, 12, timeNamed}
 
 // named interface types: E0 registered, E1 not
 type E0 interface{}
@@ -144,11 +185,30 @@ type Holder struct {
 	M map[string]any
 }
 
+// an embedded struct, json tags (which the serialiser does not look at: fields go by name)
+type Inner struct {
+	A int
+	B string
+}
+type Outer struct {
+	Inner
+	P    *Inner
+	Tag  string `json:"tag,omitempty"`
+	Skip int    `json:"-"`
+	Low  []int  `json:"Tag"`
+}
+
+// a comparable struct used as a map key type (keys are written as plain JSON)
+type KS struct {
+	A int
+	B NStr
+}
+
 var fixedStructs = []struct {
 	rt  reflect.Type
 	reg bool
 }{{reflect.TypeOf(Empty{}), true}, {reflect.TypeOf(Node{}), true}, {reflect.TypeOf(Unreg{}), false}, {reflect.TypeOf(Rec{}), true},
-	{reflect.TypeOf(Holder{}), true}}
+	{reflect.TypeOf(Holder{}), true}, {reflect.TypeOf(Inner{}), true}, {reflect.TypeOf(Outer{}), true}, {reflect.TypeOf(KS{}), true}}
 
 // container types registered under a name (so that they may be element types)
 var regContainers = []struct {
@@ -201,6 +261,13 @@ func init() {
 	must(compose.RegisterSerializableType[*Node]("c12_s1001")) // pointers are stripped by the registration
 	must(compose.RegisterSerializableType[Rec]("c12_s1003"))
 	must(compose.RegisterSerializableType[Holder]("c12_s1004"))
+	must(compose.RegisterSerializableType[Inner]("c12_s1005"))
+	must(compose.RegisterSerializableType[Outer]("c12_s1006"))
+	must(compose.RegisterSerializableType[KS]("c12_s1007"))
+	must(compose.RegisterSerializableType[NLvl]("c12_n10"))
+	must(compose.RegisterSerializableType[NTk]("c12_n11"))
+	must(compose.RegisterSerializableType[alt.NInt]("c12_n12"))
+	must(compose.RegisterSerializableType[time.Time]("c12_n13"))
 	must(compose.RegisterSerializableType[[]int]("c12_ints"))
 	must(compose.RegisterSerializableType[map[string]string]("c12_strmap"))
 	must(compose.RegisterSerializableType[NSl]("c12_nsl"))
@@ -352,6 +419,9 @@ func (w *world) goType(t *Ty) (reflect.Type, error) {
 
 // tyOf is the inverse of goType on the universe
 func (w *world) tyOf(rt reflect.Type) (*Ty, bool) {
+	if rt == timeType {
+		return &Ty{K: "named", N: timeNamed}, true
+	}
 	switch rt.Kind() {
 	case reflect.Ptr:
 		e, ok := w.tyOf(rt.Elem())
@@ -709,6 +779,19 @@ func setLit(rv reflect.Value, l *Lit) error {
 			return err
 		}
 		rv.SetString(string(b))
+	case reflect.Struct:
+		if rv.Type() != timeType || l.S == nil {
+			return fmt.Errorf("time literal expected")
+		}
+		b, err := hex.DecodeString(*l.S)
+		if err != nil {
+			return err
+		}
+		tm, err := time.Parse(time.RFC3339Nano, string(b))
+		if err != nil {
+			return err
+		}
+		rv.Set(reflect.ValueOf(tm.UTC()))
 	default:
 		return fmt.Errorf("not a basic kind: %v", rv.Kind())
 	}
@@ -776,6 +859,11 @@ func litCoq(rv reflect.Value) (string, string) {
 		return "(LComplex " + lib.CoqN(re) + " " + lib.CoqN(im) + ")", fmt.Sprintf("c%020d,%020d", re, im)
 	case reflect.String:
 		return "(LStr " + coqBytes(rv.String()) + ")", "s" + rv.String()
+	case reflect.Struct:
+		if rv.Type() == timeType {
+			s := rv.Interface().(time.Time).Format(time.RFC3339Nano)
+			return "(LStr " + coqBytes(s) + ")", "t" + s
+		}
 	}
 	return "", ""
 }
@@ -914,6 +1002,24 @@ func unregisteredDefinedContainer(t reflect.Type) bool {
 	return false
 }
 
+// keyUntyped: a map key type with an interface or pointer type in it (F-C12j): the plain JSON
+// of such a key does not carry the dynamic type / the identity of the pointer
+func keyUntyped(t reflect.Type) bool {
+	switch t.Kind() {
+	case reflect.Interface, reflect.Ptr:
+		return true
+	case reflect.Array:
+		return keyUntyped(t.Elem())
+	case reflect.Struct:
+		for i := 0; i < t.NumField(); i++ {
+			if keyUntyped(t.Field(i).Type) {
+				return true
+			}
+		}
+	}
+	return false
+}
+
 // equiv: deeply equal, identical types, nil and empty containers identified.
 func equiv(a, b reflect.Value, mode eqMode) bool {
 	if a.Type() != b.Type() {
@@ -953,6 +1059,12 @@ func equiv(a, b reflect.Value, mode eqMode) bool {
 		}
 		return equiv(a.Elem(), b.Elem(), coerce)
 	case reflect.Struct:
+		if a.Type() == timeType {
+			// the same instant in the same zone, and interchangeable as map keys / under ==
+			// (the harness only builds UTC times without a monotonic reading)
+			ta, tb := a.Interface().(time.Time), b.Interface().(time.Time)
+			return ta.Equal(tb) && ta == tb
+		}
 		for i := 0; i < a.NumField(); i++ {
 			if a.Type().Field(i).PkgPath != "" {
 				continue
@@ -973,10 +1085,8 @@ func equiv(a, b reflect.Value, mode eqMode) bool {
 		}
 		return true
 	case reflect.Map:
-		if mode == eqMapKey {
-			if _, basic := kindBase[a.Type().Key().Kind()]; !basic {
-				return a.IsNil() == b.IsNil() || a.Len() == 0
-			}
+		if mode == eqMapKey && keyUntyped(a.Type().Key()) {
+			return a.IsNil() == b.IsNil() || a.Len() == 0
 		}
 		if a.Len() != b.Len() {
 			return false
@@ -1320,18 +1430,86 @@ func runBB(mode int, val any) (state any, copies []any, bytes int, phase string,
 
 type probeFresh int
 
+// fresh types for registrations that must succeed (once per process)
+type pfA int
+type pfB string
+type pfC struct{ X int }
+type pfD []int
+type pfE int
+
+// a registration attempt: GenericRegister must refuse it iff the key or the (pointer-stripped)
+// type is taken.  key strings are the same in the process and in the model's registry.
+type probeDef struct {
+	name string
+	key  string
+	rt   reflect.Type // the type the registry would store (pointers stripped)
+	coqT string       // the type as passed to the registration (the model strips the pointers itself)
+	do   func(key string) error
+	ok   func() bool // after a successful registration: a value of the type round-trips
+}
+
+func rtOK(v any) func() bool {
+	return func() bool {
+		data, err := compose.VerifC12Marshal(v)
+		if err != nil {
+			return false
+		}
+		out, err := compose.VerifC12Unmarshal(data)
+		return err == nil && reflect.DeepEqual(out, v)
+	}
+}
+
+var probes = []probeDef{
+	// a taken key with a fresh type of another kind / of the same kind as the key's type
+	{"dup-key", "c12_n1", reflect.TypeOf(probeFresh(0)), "(TNamed 99%N BInt)", compose.RegisterSerializableType[probeFresh], nil},
+	{"dup-key-same-kind", "c12_n0", reflect.TypeOf(probeFresh(0)), "(TNamed 99%N BInt)", compose.RegisterSerializableType[probeFresh], nil},
+	{"dup-key-builtin", "_eino_string", reflect.TypeOf(pfB("")), "(TNamed 101%N BString)", compose.RegisterSerializableType[pfB], nil},
+	{"dup-key-compose", "_eino_checkpoint", reflect.TypeOf(pfC{}), "(TStruct 8000%N)", compose.RegisterSerializableType[pfC], nil},
+	{"dup-key-container", "c12_ints", reflect.TypeOf(pfD(nil)), "(TDef 50%N (TSlice (TBase BInt)))", compose.RegisterSerializableType[pfD], nil},
+	// a registered type under a fresh key: through a pointer type, directly, through two pointers
+	{"dup-type", "c12_probe_fresh", reflect.TypeOf(NStr("")), "(TPtr (TNamed 1%N BString))", compose.RegisterSerializableType[*NStr], nil},
+	{"dup-type-direct", "c12_probe_fresh2", reflect.TypeOf(NStr("")), "(TNamed 1%N BString)", compose.RegisterSerializableType[NStr], nil},
+	{"dup-type-ptr2", "c12_probe_fresh3", reflect.TypeOf(Node{}), "(TPtr (TPtr (TStruct 1001%N)))", compose.RegisterSerializableType[**Node], nil},
+	{"dup-type-builtin", "c12_probe_fresh4", reflect.TypeOf(int(0)), "(TBase BInt)", compose.RegisterSerializableType[int], nil},
+	{"dup-type-container", "c12_probe_fresh5", reflect.TypeOf([]int(nil)), "(TPtr (TSlice (TBase BInt)))", compose.RegisterSerializableType[*[]int], nil},
+	// fresh key and fresh type: accepted the first time in a process, refused from then on
+	{"fresh", "c12_probe_pfA", reflect.TypeOf(pfA(0)), "(TNamed 100%N BInt)", compose.RegisterSerializableType[pfA], rtOK(pfA(7))},
+	{"fresh-ptr", "c12_probe_pfD", reflect.TypeOf(pfD(nil)), "(TPtr (TDef 50%N (TSlice (TBase BInt))))", compose.RegisterSerializableType[*pfD], rtOK([]any{pfD{1, 2}})},
+	{"fresh-struct", "c12_probe_pfC", reflect.TypeOf(pfC{}), "(TStruct 8000%N)", compose.RegisterSerializableType[pfC], rtOK(&pfC{X: 3})},
+	// the key of "fresh" with another fresh type; the type of "fresh-ptr" under another key
+	{"fresh-key-again", "c12_probe_pfA", reflect.TypeOf(pfE(0)), "(TNamed 102%N BInt)", compose.RegisterSerializableType[pfE], rtOK(pfE(1))},
+	{"fresh-type-again", "c12_probe_pfD2", reflect.TypeOf(pfD(nil)), "(TDef 50%N (TSlice (TBase BInt)))", compose.RegisterSerializableType[pfD], rtOK([]any{pfD{4}})},
+}
+
+// keys known to be taken in this process: the built-in ones, compose's, the fixed family's
+// (those spelled the same in the model's registry), and what earlier probes registered
+var probeKeys = map[string]bool{"c12_n0": true, "c12_n1": true, "c12_ints": true, "_eino_string": true, "_eino_checkpoint": true}
+var probeRegistered []string // model registry entries of the successful probe registrations, in order
+
 // runProbe: the theorems assume registry names and types are unique because GenericRegister
-// refuses a second registration of a key or of a type; check that it does.
+// refuses a second registration of a key or of a type; check that it does (and that it accepts
+// a registration of a fresh key and type, after which values of the type are serialisable).
 func runProbe(c *Case) (res lib.Result) {
+	var pd *probeDef
+	for i := range probes {
+		if probes[i].name == c.Probe {
+			pd = &probes[i]
+		}
+	}
+	if pd == nil {
+		res.Obs = Obs{Class: "bad-case", Msg: "unknown probe " + c.Probe}
+		res.Oracle, res.Sig = "harness could not build the case", "bad-case"
+		return
+	}
+	_, typeTaken := compose.VerifC12Registered(pd.rt)
+	wantRefused := probeKeys[pd.key] || typeTaken
+	extra := lib.CoqList(probeRegistered)
 	var err error
+	usable := true
 	p := lib.Recover(func() {
-		switch c.Probe {
-		case "dup-key":
-			err = compose.RegisterSerializableType[probeFresh]("c12_n1") // the key of NStr, a type never registered
-		case "dup-type":
-			err = compose.RegisterSerializableType[*NStr]("c12_probe_fresh") // NStr is registered as c12_n1
-		default:
-			panic("unknown probe " + c.Probe)
+		err = pd.do(pd.key)
+		if err == nil && pd.ok != nil {
+			usable = pd.ok()
 		}
 	})
 	o := Obs{Class: "enc-error"}
@@ -1339,21 +1517,36 @@ func runProbe(c *Case) (res lib.Result) {
 	case p != nil:
 		o = Obs{Class: "panic", Msg: fmt.Sprint(p)}
 		res.Oracle, res.Sig = "registration panicked: "+o.Msg, "panic"
-	case err == nil:
+	case err == nil && wantRefused:
 		o = Obs{Class: "ok-different", Msg: "a duplicate registration was accepted"}
-		res.Oracle, res.Sig = "GenericRegister accepted a second registration ("+c.Probe+")", "registry-duplicate"
+		res.Oracle, res.Sig = "GenericRegister accepted a second registration ("+c.Probe+": key "+pd.key+", type "+pd.rt.String()+")", "registry-duplicate"
+	case err != nil && !wantRefused:
+		o = Obs{Class: "enc-error", Msg: err.Error()}
+		res.Oracle, res.Sig = "GenericRegister refused a fresh key and type ("+c.Probe+"): "+err.Error(), "registry-refused-fresh"
+	case err == nil && !usable:
+		o = Obs{Class: "ok-different", Msg: "registered, but a value of the type does not round-trip"}
+		res.Oracle, res.Sig = "a value of a freshly registered type does not round-trip ("+c.Probe+")", "registry-fresh-unusable"
+	case err == nil:
+		o = Obs{Class: "ok-equal", Msg: "registered"}
 	default:
 		o.Msg = err.Error()
 	}
+	if err == nil && p == nil {
+		probeKeys[pd.key] = true
+	}
 	res.Obs = o
-	res.Tags = []string{"class:" + o.Class, "probe:" + c.Probe, "malformed:registry-probe"}
+	res.Nontrivial = true
+	res.Tags = []string{"class:" + o.Class, "probe:" + c.Probe, "malformed:registry-probe", fmt.Sprintf("probe-refused:%v", err != nil)}
 	// the model's GenericRegister ([register]) on the same registry
 	if p == nil {
-		k, t := lib.CoqStr("c12_n1"), "(TNamed 99%N BInt)"
-		if c.Probe == "dup-type" {
-			k, t = lib.CoqStr("c12_probe_fresh"), "(TPtr (TNamed 1%N BString))"
+		res.CoqTerm = lib.CoqApp("Probe", "(ckpt_registry ++ regx0 ++ "+extra+")%list", lib.CoqStr(pd.key), pd.coqT, lib.CoqBool(err != nil))
+	}
+	if err == nil && p == nil {
+		st := pd.coqT
+		for strings.HasPrefix(st, "(TPtr ") {
+			st = st[len("(TPtr ") : len(st)-1]
 		}
-		res.CoqTerm = lib.CoqApp("Probe", "(ckpt_registry ++ regx0)%list", k, t, lib.CoqBool(err != nil))
+		probeRegistered = append(probeRegistered, lib.CoqPair(lib.CoqStr(pd.key), st))
 	}
 	return
 }
@@ -1600,7 +1793,7 @@ func (g *gen) want(kind string, num, den int) bool {
 
 var badKinds = []string{"unregistered-named", "unregistered-named", "complex", "unregistered-container-elem",
 	"unregistered-iface-elem", "unregistered-struct", "unregistered-struct", "invalid-utf8", "invalid-utf8", "non-finite-float",
-	"unregistered-defined-container", "ptr-to-iface", "non-basic-key"}
+	"unregistered-defined-container", "ptr-to-iface", "non-basic-key", "non-finite-key", "complex-key"}
 
 var commonBases = []string{"int", "string", "bool", "float64", "int64", "uint8", "int32", "uint64", "float32", "uint", "int8",
 	"int16", "uint16", "uint32", "uintptr"}
@@ -1609,7 +1802,7 @@ func (g *gen) basicType() *Ty {
 	r := g.r
 	switch {
 	case r.Chance(1, 4):
-		return &Ty{K: "named", N: r.Intn(8)}
+		return &Ty{K: "named", N: regNamed[r.Intn(len(regNamed))]}
 	case g.want("unregistered-named", 1, 3):
 		g.bad("unregistered-named")
 		return &Ty{K: "named", N: 8 + r.Intn(2)}
@@ -1633,11 +1826,21 @@ func (g *gen) keyType() *Ty {
 	case 0, 1, 2, 3, 4:
 		return &Ty{K: "base", B: "string"}
 	case 5:
-		return &Ty{K: "named", N: []int{0, 1, 3, 4, 5, 7}[r.Intn(6)]}
+		return &Ty{K: "named", N: []int{0, 1, 2, 3, 4, 5, 6, 7, 10, 11, 12, timeNamed}[r.Intn(12)]}
 	case 6:
 		return &Ty{K: "base", B: r.Pick([]string{"float64", "float32", "bool"})}
+	case 7:
+		if r.Chance(1, 2) {
+			// key kinds outside the model's universe that the serialiser supports: a registered
+			// comparable struct type, a registered array type (written as plain JSON)
+			if r.Chance(1, 2) {
+				return &Ty{K: "struct", N: fixedBase + 7}
+			}
+			return &Ty{K: "array", N: 2, E: &Ty{K: "base", B: "int"}}
+		}
+		fallthrough
 	default:
-		return &Ty{K: "base", B: r.Pick([]string{"int", "int64", "uint8", "uint64", "int8", "uint", "int32", "uintptr"})}
+		return &Ty{K: "base", B: r.Pick([]string{"int", "int64", "uint8", "uint64", "int8", "uint", "int32", "uintptr", "int16", "uint16", "uint32"})}
 	}
 }
 
@@ -1697,7 +1900,7 @@ func (g *gen) structType(depth int) *Ty {
 	r := g.r
 	switch {
 	case r.Chance(1, 6):
-		return &Ty{K: "struct", N: fixedBase + []int{0, 1, 1, 3}[r.Intn(4)]}
+		return &Ty{K: "struct", N: fixedBase + []int{0, 1, 1, 3, 5, 6, 6, 7}[r.Intn(8)]}
 	case g.want("unregistered-struct", 1, 5):
 		g.bad("unregistered-struct")
 		return &Ty{K: "struct", N: fixedBase + 2}
@@ -1791,6 +1994,21 @@ var strPool = []string{"", "a", "hello world", "\"quoted\" \\ back/slash", "tab\
 var badStrPool = []string{"\xff", "a\xffb", "\xc0\xaf", "\xe2\x82", "\xed\xa0\x80", "\xf4\x90\x80\x80", "ok\xf0\x9f\x98", "\x80\x80 tail",
 	"\xc3\x28", "\xe0\x80\xaf", "\xf8\x88\x80\x80\x80", "mixed é \xe9 end"}
 
+var timePool = []string{"0001-01-01T00:00:00Z", "1970-01-01T00:00:00Z", "1969-12-31T23:59:59.999999999Z", "2024-02-29T12:34:56.789Z",
+	"9999-12-31T23:59:59.999999999Z", "2038-01-19T03:14:08Z", "0000-01-01T00:00:00Z", "2001-09-09T01:46:40.000000001Z"}
+
+// litOf: a literal of the basic / named type t
+func (g *gen) litOf(t *Ty, isKey bool) *Lit {
+	if t.K == "named" && t.N == timeNamed {
+		s := g.r.Pick(timePool)
+		if g.r.Chance(1, 2) {
+			s = time.Unix(int64(g.r.Range(-2000000000, 2000000000)), int64(g.r.Intn(3))*int64(g.r.Intn(1000000000))).UTC().Format(time.RFC3339Nano)
+		}
+		return &Lit{S: sp(hex.EncodeToString([]byte(s)))}
+	}
+	return g.lit(baseOfTy(t), isKey)
+}
+
 func (g *gen) lit(base string, isKey bool) *Lit {
 	r := g.r
 	switch base {
@@ -1857,6 +2075,15 @@ func (g *gen) lit(base string, isKey bool) *Lit {
 			}
 		}
 		f, _ := floatOfBits(is32, strconv.FormatUint(bits, 10))
+		if isKey && g.forceBad && g.badKind == "non-finite-key" {
+			g.forceBad = false
+			g.bad("non-finite-key")
+			bits = []uint64{math.Float64bits(math.NaN()), math.Float64bits(math.Inf(1)), math.Float64bits(math.Inf(-1))}[r.Intn(3)]
+			if is32 {
+				bits = uint64(math.Float32bits(float32(math.Float64frombits(bits))))
+			}
+			return &Lit{F: sp(strconv.FormatUint(bits, 10))}
+		}
 		if math.IsNaN(f) || math.IsInf(f, 0) {
 			if !isKey && (g.forceBad && g.badKind == "non-finite-float" || g.want("non-finite-float", 1, 1)) {
 				g.forceBad = false
@@ -1989,7 +2216,7 @@ func (g *gen) value(t *Ty, depth int) *V {
 		}
 		return v
 	case "base", "named":
-		return &V{L: g.lit(baseOfTy(t), false)}
+		return &V{L: g.litOf(t, false)}
 	case "struct":
 		v := &V{}
 		for _, ft := range g.fieldTypes(t) {
@@ -2033,8 +2260,11 @@ func (g *gen) value(t *Ty, depth int) *V {
 				k = &V{DT: kt, DV: &V{L: g.lit(kt.B, true)}}
 			case "ptr":
 				k = &V{P: &V{L: g.lit(baseOfTy(t.Key.E), true)}}
-			default:
-				k = &V{L: g.lit(baseOfTy(t.Key), true)}
+			case "base", "named":
+				k = &V{L: g.litOf(t.Key, true)}
+			default: // struct / array keys
+				g.budget++
+				k = g.value(t.Key, 1)
 			}
 			kb, _ := json.Marshal(k)
 			ks := string(kb)
@@ -2133,6 +2363,12 @@ func (g *gen) badLeaf() *Ty {
 	case "ptr-to-iface":
 		g.bad("ptr-to-iface")
 		return &Ty{K: "ptr", E: &Ty{K: "any"}}
+	case "non-finite-key":
+		// a NaN / Inf map key has no JSON text: the encoder must refuse the map
+		return &Ty{K: "map", Key: []*Ty{{K: "base", B: "float64"}, {K: "base", B: "float32"}, {K: "named", N: 2}, {K: "named", N: 6}}[r.Intn(4)], E: g.basicType()}
+	case "complex-key":
+		g.bad("complex-key")
+		return &Ty{K: "map", Key: &Ty{K: "base", B: r.Pick([]string{"complex64", "complex128"})}, E: &Ty{K: "base", B: "int"}}
 	case "non-basic-key":
 		g.bad("non-basic-key")
 		if r.Chance(1, 3) {
@@ -2228,8 +2464,8 @@ func genCase(r *lib.Rng, tier string, i int) *Case {
 	if i%97 == 50 {
 		return &Case{TopNil: true, Malformed: []string{"top-level-nil"}}
 	}
-	if i%193 == 7 {
-		return &Case{Probe: r.Pick([]string{"dup-key", "dup-type"}), Malformed: []string{"registry-probe"}}
+	if i%61 == 7 {
+		return &Case{Probe: probes[r.Intn(len(probes))].name, Malformed: []string{"registry-probe"}}
 	}
 	depth := 1 + r.Intn(g.maxDepth)
 	var t *Ty
